@@ -5,6 +5,7 @@ import vlib
 from props.common import TRUSTED_BASE, ASSUMPTIONS
 
 ID = "C15"
+FORMAT_GROUP = "syntax"
 LEAN_MODULES = ["LexVerif.Props.C15"]
 GEN = []
 TRUSTED = TRUSTED_BASE + [
